@@ -39,7 +39,38 @@ func calleeSet(f *core.FuncInfo) map[string]bool {
 // expressions on the left-hand side).
 func storedFields(f *core.FuncInfo) map[string]token.Pos {
 	out := map[string]token.Pos{}
+	storedFieldsInto(f, out, 0, map[*core.FuncInfo]bool{})
+	return out
+}
+
+// storedFieldsDeep also counts the stores of unexported helpers that have this function as their only
+// user (a block extracted from it), two levels deep.
+func storedFieldsDeep(f *core.FuncInfo) map[string]token.Pos {
+	out := map[string]token.Pos{}
+	storedFieldsInto(f, out, 2, map[*core.FuncInfo]bool{})
+	return out
+}
+
+// storedFieldsInto also follows calls to declared functions of the same package (an extracted block keeps
+// counting as the caller's work), to the given depth.
+func storedFieldsInto(f *core.FuncInfo, out map[string]token.Pos, depth int, seen map[*core.FuncInfo]bool) {
+	if f == nil || seen[f] {
+		return
+	}
+	seen[f] = true
 	info := f.Info()
+	if depth > 0 {
+		ast.Inspect(f.Body(), func(x ast.Node) bool {
+			if call, ok := x.(*ast.CallExpr); ok {
+				if fn := core.Callee(info, call); fn != nil && fn.Pkg() != nil && fn.Pkg() == f.Pkg.Types && !fn.Exported() {
+					if refs := f.W.RefsTo(map[types.Object]bool{fn.Origin(): true}); len(refs) == 1 {
+						storedFieldsInto(f.W.FuncOf(fn), out, depth-1, seen)
+					}
+				}
+			}
+			return true
+		})
+	}
 	note := func(lhs ast.Expr) {
 		e := ast.Unparen(lhs)
 		for {
@@ -72,7 +103,6 @@ func storedFields(f *core.FuncInfo) map[string]token.Pos {
 		}
 		return true
 	})
-	return out
 }
 
 // deltaStores returns, for every statement of fn that adds to / subtracts from
@@ -374,7 +404,7 @@ func init() {
 			rule("R24f", "skip list: Insert/Delete maintain the same links; descending score order", 4, func(r *Run) {
 				ins, del := r.Fn(skl+"Insert"), r.Fn(skl+"Delete")
 				if ins != nil && del != nil {
-					si, sd := storedFields(ins), storedFields(del)
+					si, sd := storedFieldsDeep(ins), storedFieldsDeep(del)
 					var missing []string
 					for k := range si {
 						if _, ok := sd[k]; !ok {
